@@ -528,3 +528,201 @@ func feedLines(w io.Writer, lines ...[]byte) {
 	}
 	bw.Flush()
 }
+
+// ---------------------------------------------------------------------------
+// in-process live response (no sockets): a ResponseWriter the harness owns
+
+// LiveResp runs a handler in its own goroutine against a ResponseWriter that
+// records everything, lets the harness watch the stream while the handler is
+// still running, end the request (peer goes away) and detect writes that
+// happen after the handler has returned.
+type LiveResp struct {
+	mu         sync.Mutex
+	cond       *sync.Cond
+	header     http.Header
+	status     int
+	wrote      bool
+	body       []byte
+	events     []SSEEvent
+	parser     *SSEParser
+	flushes    int
+	returned   bool
+	panicVal   interface{}
+	lateWrites int
+	cancel     context.CancelFunc
+	inWrite    int32
+	Overlaps   int64
+	// WriteHook, if set, is called (outside the lock) at the start of every Write / Flush: schedule perturbation.
+	WriteHook func(kind string, n int)
+	// FailWrites makes Write return an error (peer gone) once set.
+	failWrites atomic.Bool
+}
+
+// Header implements http.ResponseWriter.
+func (l *LiveResp) Header() http.Header { return l.header }
+
+// WriteHeader implements http.ResponseWriter.
+func (l *LiveResp) WriteHeader(code int) {
+	l.mu.Lock()
+	if !l.wrote {
+		l.wrote = true
+		l.status = code
+	}
+	if l.returned {
+		l.lateWrites++
+	}
+	l.cond.Broadcast()
+	l.mu.Unlock()
+}
+
+func (l *LiveResp) Write(p []byte) (int, error) {
+	if atomic.AddInt32(&l.inWrite, 1) > 1 {
+		atomic.AddInt64(&l.Overlaps, 1)
+	}
+	defer atomic.AddInt32(&l.inWrite, -1)
+	if h := l.WriteHook; h != nil {
+		h("write", len(p))
+	}
+	l.mu.Lock()
+	defer l.mu.Unlock()
+	if l.returned {
+		l.lateWrites++
+	}
+	if l.failWrites.Load() {
+		return 0, fmt.Errorf("write: broken pipe")
+	}
+	if !l.wrote {
+		l.wrote = true
+		l.status = 200
+	}
+	l.body = append(l.body, p...)
+	l.events = append(l.events, l.parser.Feed(p)...)
+	l.cond.Broadcast()
+	return len(p), nil
+}
+
+// Flush implements http.Flusher.
+func (l *LiveResp) Flush() {
+	if h := l.WriteHook; h != nil {
+		h("flush", 0)
+	}
+	l.mu.Lock()
+	if l.returned {
+		l.lateWrites++
+	}
+	if !l.wrote {
+		l.wrote = true
+		l.status = 200
+	}
+	l.flushes++
+	l.cond.Broadcast()
+	l.mu.Unlock()
+}
+
+// StartLive runs handler.ServeHTTP(lr, req) in a goroutine.
+func StartLive(h http.Handler, method, url string, hdr map[string]string, body []byte, hook func(string, int)) *LiveResp {
+	ctx, cancel := context.WithCancel(context.Background())
+	var rd io.Reader
+	if body != nil {
+		rd = bytes.NewReader(body)
+	}
+	req, _ := http.NewRequestWithContext(ctx, method, url, rd)
+	req.RequestURI = req.URL.RequestURI()
+	req.RemoteAddr = "verif:1"
+	for k, v := range hdr {
+		req.Header[k] = []string{v}
+	}
+	l := &LiveResp{header: http.Header{}, parser: NewSSEParser(), cancel: cancel, WriteHook: hook}
+	l.cond = sync.NewCond(&l.mu)
+	go func() {
+		defer func() {
+			r := recover()
+			l.mu.Lock()
+			l.panicVal = r
+			l.returned = true
+			l.cond.Broadcast()
+			l.mu.Unlock()
+		}()
+		h.ServeHTTP(l, req)
+	}()
+	return l
+}
+
+// PeerGone cancels the request context (what net/http does when the peer disconnects) and fails later writes.
+func (l *LiveResp) PeerGone() {
+	l.failWrites.Store(true)
+	l.cancel()
+}
+
+func (l *LiveResp) wait(done func() bool, bound time.Duration) bool {
+	deadline := time.Now().Add(bound)
+	timer := time.AfterFunc(bound, func() { l.mu.Lock(); l.cond.Broadcast(); l.mu.Unlock() })
+	defer timer.Stop()
+	l.mu.Lock()
+	defer l.mu.Unlock()
+	for !done() {
+		if !time.Now().Before(deadline) {
+			return false
+		}
+		l.cond.Wait()
+	}
+	return true
+}
+
+// WaitHeader waits until the status line was written (or the handler returned).
+func (l *LiveResp) WaitHeader(bound time.Duration) bool {
+	return l.wait(func() bool { return l.wrote || l.returned }, bound)
+}
+
+// WaitFlushedHeader waits until the header was written and flushed (the peer can see it) or the handler returned.
+func (l *LiveResp) WaitFlushedHeader(bound time.Duration) bool {
+	return l.wait(func() bool { return (l.wrote && l.flushes > 0) || l.returned }, bound)
+}
+
+// WaitReturned waits until the handler returned.
+func (l *LiveResp) WaitReturned(bound time.Duration) bool {
+	return l.wait(func() bool { return l.returned }, bound)
+}
+
+// WaitEvents waits for n events (or handler return).
+func (l *LiveResp) WaitEvents(n int, bound time.Duration) []SSEEvent {
+	l.wait(func() bool { return len(l.events) >= n || l.returned }, bound)
+	return l.Events()
+}
+
+// Events returns the events parsed so far.
+func (l *LiveResp) Events() []SSEEvent {
+	l.mu.Lock()
+	defer l.mu.Unlock()
+	return append([]SSEEvent(nil), l.events...)
+}
+
+// Snapshot returns status, header, body, returned flag, panic value and number of late writes.
+func (l *LiveResp) Snapshot() (status int, hdr http.Header, body []byte, returned bool, pan interface{}, late int) {
+	l.mu.Lock()
+	defer l.mu.Unlock()
+	return l.status, l.header.Clone(), append([]byte(nil), l.body...), l.returned, l.panicVal, l.lateWrites
+}
+
+// Returned reports whether the handler has returned.
+func (l *LiveResp) Returned() bool {
+	l.mu.Lock()
+	defer l.mu.Unlock()
+	return l.returned
+}
+
+// Comments returns SSE comment lines seen so far.
+func (l *LiveResp) Comments() []string {
+	l.mu.Lock()
+	defer l.mu.Unlock()
+	return append([]string(nil), l.parser.Comments...)
+}
+
+// Exchange converts a finished live response into an Exchange.
+func (l *LiveResp) Exchange() Exchange {
+	st, h, b, _, pan, _ := l.Snapshot()
+	if pan != nil {
+		return Exchange{Err: fmt.Errorf("handler panic: %v", pan), Kind: "panic"}
+	}
+	return exchangeFromHTTP(st, h, b)
+}
